@@ -6,6 +6,7 @@
 import ODataVerif.Wire
 import ODataVerif.Model.Lexer
 import ODataVerif.Model.Parser
+import ODataVerif.Spec.Builtins
 open OQ OQ.Wire
 
 def encTok : Tok → String
@@ -31,6 +32,17 @@ def handle (args : List String) : String :=
       match decStr h with
       | some s => encOutcome (fun e => encTree e.toTree) (parseText pyCharEnv s)
       | none => "bad-arg"
+  | ["c11spec", h, v, n] =>
+      -- what C11 demands of a call `name(…n args…)`: from Spec.Builtins only
+      match decStr h, n.toNat? with
+      | some nm, some k =>
+          if v == "1" then
+            match Spec.arity nm with
+            | none => s!"UnknownFunctionException {encStr nm}"
+            | some (lo, hi) =>
+                if lo ≤ k ∧ k ≤ hi then "accept" else s!"ArgumentCountException {encStr nm} {lo} {hi} {k}"
+          else "accept"
+      | _, _ => "bad-arg"
   | _ => "bad-op"
 
 partial def loop (hin : IO.FS.Stream) (hout : IO.FS.Stream) : IO Unit := do
